@@ -55,3 +55,7 @@ CLAIMS["C31"] = dict(level="exploration",
     technique="reflection-driven exhaustive enumeration of field patterns (zero, one-hot, empty-slice, all-set, pairs) through public->private->public conversions, plus byte round trips of the whole hello corpus",
     text="Every field of every public view type is set alone (and empty, and with every other field in thorough) and converted to the internal form and back with deep comparison; every corpus ClientHello (all IDs, custom specs, variants with spliced-in empty/boundary extensions) must satisfy Unmarshal.Marshal == input and parse/clear-Raw/marshal/parse field equality.",
     note="Fields without counterpart by design are listed in inpkg/roundtrip.go (cachedPrivateHello; deprecated CertificateRequestMsgTLS13.Raw; FinishedHash.Prf/Prfv2 wrapper closures).")
+CLAIMS["C32"] = dict(level="exploration",
+    technique="exhaustive enumeration of every dicttls table entry (value->name->value) and of the hello corpus rendered to JSON, comparing JSON import with raw import",
+    text="Every entry of every value-indexed dictionary with a name-indexed sibling (discovered from the sources at check time) must resolve back to itself; every corpus ClientHello the JSON format can describe is rendered with the value-indexed tables, imported, applied and built, and must equal (normalised) the hello built from the raw-bytes import of the same bytes.",
+    note="Harness JSON renderer written from the documented format; non-representable hellos (ECH GREASE, cookie, QUIC params, unnamed code points) are counted, not judged.")
